@@ -122,8 +122,13 @@ class EmptyLen:
 
 
 def make_obj(spec: str):
-    """build.make_obj plus  z:<v> (FalsyBool)  l:<v> (EmptyLen);  s: / i:0 / t: give "", 0, ()"""
+    """build.make_obj plus  z:<v> (FalsyBool)  l:<v> (EmptyLen);  s: / i:0 / t: give "", 0, ();
+    W:<n> = DictWrapper whose keys ARE entries of the custom key_map / value_map (for the library's own
+    DictWrapper.serialize_mapper / deserialize_mapper, mapper style "dw")"""
     k, _, v = spec.partition(":")
+    if k == "W":
+        n = int(v)
+        return DictWrapper({"t": ["e", "p", "i"][n % 3], "v": n, "str": f"q{n}", "title": f"w{n}"})
     if k == "z":
         return FalsyBool(int(v))
     if k == "l":
@@ -165,11 +170,13 @@ def tag_val(o):
     if isinstance(o, B.DC):
         return "d", o.v
     if isinstance(o, DictWrapper):
-        return "w", o._dict["v"]
+        return "w", (o._dict["v"] if set(o._dict) == {"v"} else sorted(o._dict.items()))
     raise TypeError(f"no serialisation for {o!r}")
 
 
-def payload_of(o) -> dict:
+def payload_of(o, ms=None) -> dict:
+    if ms == "dw":          # DictWrapper.serialize_mapper: the entry is a copy of the wrapped dict
+        return dict(o._dict)
     if is_fs_entry(o):      # what FileSystemTree.serialize_mapper adds (fs.py)
         return {"n": o.name, "d": True} if o.is_dir else {"n": o.name, "s": o.size, "m": o.mdate}
     t, v = tag_val(o)
@@ -183,6 +190,15 @@ def ser_mapper(node, data):
     for k, v in payload_of(o).items():
         data[k] = v
     return data
+
+
+def layout_mapper(ms):
+    """what the serialize mapper of style `ms` is documented to contribute (for the independent encoder)"""
+    if ms == "none":
+        return None
+    if ms == "dw":
+        return lambda node, data: dict(node._data._dict)
+    return ser_mapper
 
 
 def deser_mapper(parent, data):
@@ -264,6 +280,16 @@ def build_tree(desc):
         cls = base_class(typed)
     t = cls("T", calc_data_id=B.calc_fn(desc.get("calc")))
     B.add_nodes(t._root, desc["nodes"], U, typed)
+    # history before the save: nodes re-keyed with set_data()/rename() AFTER the tree was built
+    # (clone groups that never went through Tree._register)
+    if desc.get("retarget"):
+        nodes = B.all_nodes(t._root)
+        for i, lbl in desc["retarget"]:
+            n, d = nodes[i], U.objs[lbl]
+            if isinstance(n._data, str) and isinstance(d, str):
+                n.rename(d)
+            else:
+                n.set_data(d)
     return t, U
 
 
@@ -277,6 +303,9 @@ def resolve_opts(desc):
     if ms == "cb":
         skw["mapper"] = ser_mapper
         lkw["mapper"] = deser_mapper
+    if ms == "dw":
+        skw["mapper"] = DictWrapper.serialize_mapper
+        lkw["mapper"] = DictWrapper.deserialize_mapper
     cls = derived_class(typed, desc.get("calc")) if ms == "derived" else base_class(typed)
     if ms == "fs":
         from nutree.fs import FileSystemTree
@@ -547,6 +576,61 @@ def meta_reuse_check(desc, tree, cls, lkw):
         return f"meta: two saves with one meta dict: {e!r:.200}"
 
 
+def data_snapshot(root):
+    """contents of every node's data, data_id, kind (save and load of ANOTHER object must leave them alone)"""
+    import copy
+    return [(copy.deepcopy(value_repr(n._data)), repr(n._data_id), getattr(n, "_kind", None)) for n in B.all_nodes(root)]
+
+
+def snapshot_diff(before, after, what):
+    if before == after:
+        return None
+    for i, (a, b) in enumerate(zip(before, after)):
+        if a != b:
+            return f"readonly: {what} modified node #{i + 1}: {b} (was {a})"
+    return f"readonly: {what} changed the number of nodes"
+
+
+_FILE_A = None
+
+
+def file_a():
+    """a small file written with maps whose short names / value-mapped keys occur as plain members of other files"""
+    global _FILE_A
+    if _FILE_A is None:
+        t = Tree("A")
+        n = t.add(DictWrapper(title="f1", type="a", v="a"))
+        n.add(DictWrapper(title="f2", type="b", v="b"))
+        fp = io.StringIO()
+        t.save(fp, mapper=DictWrapper.serialize_mapper, key_map={"title": "n", "type": "t", "kind": "str", "x": "s"},
+               value_map={"v": ["a", "b"], "type": ["a", "b"]})
+        _FILE_A = fp.getvalue()
+    return _FILE_A
+
+
+def file_meta_reuse_check(cls, lkw, texts, reference):
+    """ONE file_meta dict handed to several loads (first another file written with maps): every file must be decoded
+    with ITS OWN header, and the dict must afterwards contain that file's header members"""
+    m = {}
+    try:
+        Tree.load(io.StringIO(file_a()), mapper=DictWrapper.deserialize_mapper, file_meta=m)
+    except Exception as e:  # noqa: BLE001
+        return f"file_meta: loading the auxiliary file fails: {e!r:.200}"
+    for text in texts:
+        hdr = json.loads(text)["meta"]
+        try:
+            t = cls.load(io.StringIO(text), file_meta=m, **lkw)
+        except Exception as e:  # noqa: BLE001
+            return (f"file_meta: load with a file_meta dict that was used for another file before fails: {e!r:.200} "
+                    f"on {text[:300]}")
+        if canon(t._root) != reference:
+            return (f"file_meta: load with a file_meta dict that was used for another file before gives {canon(t._root)} "
+                    f"instead of {reference} on {text[:300]}")
+        if any(m.get(k) != v for k, v in hdr.items()):
+            return f"file_meta: after load the caller's dict {m} does not contain the file's header {hdr}"
+    return None
+
+
 def failed_load_facts(load):
     """hash() and str() of the data objects a FAILING load created before it failed (facts of the run the model
     needs for its uniqueness checks): the nodes allocated during `load()`, in creation order = entry order"""
@@ -567,7 +651,7 @@ def loaded_names(tree):
 
 def coq_lenv(typed, ms, strings, hashes, names=()) -> str:
     cls = "CFs" if ms == "fs" else "CTyped" if typed else "CPlain"
-    m = {"none": "MNone", "cb": "MHarness", "derived": "MHarness", "doc": "MDoc", "fs": "MFs"}[ms]
+    m = {"none": "MNone", "cb": "MHarness", "derived": "MHarness", "doc": "MDoc", "fs": "MFs", "dw": "MDw"}[ms]
     nm = H.coq_list(f"({r}, {H.coq_text(n)})" for r, n in names)
     sh = H.coq_list(f"({H.coq_text(s)}, {H.z(hash(s))})" for s in sorted(strings))
     hs = H.coq_list(f"({r}, {H.z(h)})" for r, h in hashes)
@@ -614,7 +698,7 @@ def coq_sopts(desc, tree, U) -> str:
     typed = bool(desc.get("typed"))
     ms = desc.get("mapper", "cb")
     cls = "CFs" if ms == "fs" else "CTyped" if typed else "CPlain"
-    m = {"none": "MNone", "cb": "MHarness", "derived": "MHarness", "fs": "MFs"}[ms]
+    m = {"none": "MNone", "cb": "MHarness", "derived": "MHarness", "fs": "MFs", "dw": "MDw"}[ms]
     pl = []
     seen = set()
     for n in B.all_nodes(tree._root):
@@ -622,7 +706,7 @@ def coq_sopts(desc, tree, U) -> str:
         if isinstance(d, str) or id(d) in seen:
             continue
         seen.add(id(d))
-        pl.append(f"({H.z(U.index(d))}, {coq_dict(payload_of(d))})")
+        pl.append(f"({H.z(U.index(d))}, {coq_dict(payload_of(d, ms))})")
     meta = coq_dict(desc.get("meta") or {})
     return f"(SO {cls} {m} {coq_kopt(desc)} {coq_vopt(desc)} {meta} {H.coq_list(pl)})"
 
@@ -681,9 +765,20 @@ def tree_iso(src_root, dst_root, *, d40_expected=False, check_data=True):
 
     if shape(src_root) != shape(dst_root):
         return "iso: shape differs"
+    # One data_id stands for one data object.  Where the caller gave two DIFFERENT objects one explicit data_id (outside
+    # the property's domain, see C05_outside_domain_same_id_different_data) the format can only keep the first one:
+    # a node written as a reference (same data_id AND kind as the first occurrence) must come back with the FIRST
+    # occurrence's data -- exactly that, so another deviation in this region is still reported.
+    first = {}
+    exp_data = []
+    for x in a:
+        fk = first.get(x._data_id)
+        exp_data.append(fk[0] if fk is not None and fk[1] == getattr(x, "_kind", None) else x._data)
+        if fk is None:
+            first[x._data_id] = (x._data, getattr(x, "_kind", None))
     for i, (x, y) in enumerate(zip(a, b)):
-        if check_data and value_repr(x._data) != value_repr(y._data):
-            return f"iso: data of node #{i + 1} rebuilt as {y._data!r}, expected {x._data!r}"
+        if value_repr(exp_data[i]) != value_repr(y._data):
+            return f"iso: data of node #{i + 1} rebuilt as {y._data!r}, expected {exp_data[i]!r}"
         if getattr(x, "_kind", None) != getattr(y, "_kind", None):
             return f"iso: kind of node #{i + 1} is {getattr(y, '_kind', None)!r}, expected {getattr(x, '_kind', None)!r}"
         if id_stable(x) and x._data_id != y._data_id:
